@@ -570,7 +570,7 @@ func rulesC14(c *Ctx) {
 	c.Rule("R-C14-1", "admission implies every check: with any single check failing, the admitting return is unreachable and only the cause's status is returned (reject table of R-C14-2 included)", func() {
 		// credential syntax: the header is split on white space and must consist of exactly two fields; any other
 		// parse (first space only, prefix match) admits or rejects different header shapes
-		c.Need(fieldsVar != nil, "verify: the Authorization header is split with strings.Fields (exactly two fields: scheme and token); another parse changes which header shapes count as a syntactically valid Bearer credential")
+		c.Must(fieldsVar != nil, "verify:credential-syntax", v, nil, "verify: the Authorization header is split with strings.Fields (exactly two fields: scheme and token); another parse changes which header shapes count as a syntactically valid Bearer credential")
 		hdrOK := []leafMatcher{lenCmpObj(fieldsVar, token.NEQ, triFalse), cmpIs("ToLower", token.NEQ, triFalse)}
 		scenario("verify:malformed-authorization", anyOf(lenCmpObj(fieldsVar, token.NEQ, triTrue))(v), []int64{401}, "Authorization does not have exactly two fields")
 		scenario("verify:scheme-not-bearer", anyOf(lenCmpObj(fieldsVar, token.NEQ, triFalse), cmpIs("ToLower", token.NEQ, triTrue))(v), []int64{401}, "scheme is not Bearer")
